@@ -68,21 +68,28 @@ def blockProvisions (m : Minter) (blocks : Dec) : Option (Int × Dec) :=
   let intPart := prov.truncDec
   some (intPart.truncInt, prov.sub intPart)
 
-/-- `BeginBlocker`: returns the new minter and the amount minted to the fee collector -/
-def beginBlock (p : Params) (m : Minter) (height supply : Int) : Minter × BlockRes :=
-  let (ph, step) := currentPhase p height
-  let m1 : Minter :=
-    if step ≠ m.phaseStep ∨ m.inflation ≠ ph.inflation then
-      { m with inflation := ph.inflation, phaseStep := step,
-               phaseProvisions := nextPhaseProvisions ph.inflation supply p.exclude ph }
-    else m
+/-- first half of `BeginBlocker`: on a phase change (or inflation mismatch) re-initialise the minter -/
+def refresh (p : Params) (m : Minter) (ph : Phase) (step supply : Int) : Minter :=
+  if step ≠ m.phaseStep ∨ m.inflation ≠ ph.inflation then
+    { m with inflation := ph.inflation, phaseStep := step,
+             phaseProvisions := nextPhaseProvisions ph.inflation supply p.exclude ph }
+  else m
+
+/-- second half of `BeginBlocker`: mint the block provision. `m0` is the minter before the block
+    (a panic discards every write of the block). -/
+def provision (m0 m1 : Minter) (blocks : Dec) : Minter × BlockRes :=
   if m1.inflation.raw = 0 then (m1, .ok 0)
   else
-    match blockProvisions m1 (phaseBlocks p ph) with
-    | none => (m, .halt)
+    match blockProvisions m1 blocks with
+    | none => (m0, .halt)
     | some (amt, tr) =>
-      if amt < 0 then (m, .halt)     -- sdk.NewCoin panics on a negative amount
+      if amt < 0 then (m0, .halt)     -- sdk.NewCoin panics on a negative amount
       else ({ m1 with truncated := tr }, .ok amt)
+
+/-- `BeginBlocker`: returns the new minter and the amount minted to the fee collector -/
+def beginBlock (p : Params) (m : Minter) (height supply : Int) : Minter × BlockRes :=
+  let cp := currentPhase p height
+  provision m (refresh p m cp.1 cp.2 supply) (phaseBlocks p cp.1)
 
 /-- `validatePhases` + `validateBlocksPerYear` + `validateExcludeAmount` (denom not modelled) -/
 def isEndPhase (ph : Phase) : Bool := ph.inflation == endPhase.inflation && ph.yearCoef == endPhase.yearCoef
@@ -90,5 +97,30 @@ def phasesValid (phs : List Phase) : Bool :=
   !phs.isEmpty && phs.all (fun ph => decide (0 < ph.yearCoef.raw) && !isEndPhase ph)
 def paramsValid (p : Params) : Bool :=
   decide (0 < p.blocksPerYear) && phasesValid p.phases && decide (0 ≤ p.exclude)
+
+end Sge.Mint
+
+namespace Sge.Mint
+open Sge
+
+/-- the part of the chain x/mint touches: total supply, fee-collector balance, minter record -/
+structure Chain where
+  supply : Int
+  collector : Int
+  minter : Minter
+  halted : Bool := false
+deriving Repr, Inhabited
+
+/-- BeginBlock of the mint module on the chain: MintCoins + SendCoinsFromModuleToModule(mint → fee collector) -/
+def Chain.begin (p : Params) (c : Chain) (h : Int) : Chain :=
+  if c.halted then c else
+  match beginBlock p c.minter h c.supply with
+  | (m, .ok n) => { supply := c.supply + n, collector := c.collector + n, minter := m, halted := false }
+  | (_, .halt) => { c with halted := true }
+
+/-- `n` consecutive blocks starting at height `h` -/
+def runBlocks (p : Params) : Nat → Int → Chain → Chain
+  | 0, _, c => c
+  | n + 1, h, c => runBlocks p n (h + 1) (c.begin p h)
 
 end Sge.Mint
